@@ -226,7 +226,19 @@ def install_contract(mon, on_accept=None):
             return {"text": text, "canonical": c, "sig": classify(result, e, None), "error": repr(e)[:160]}
         c2 = r2.encode()
         if qstruct.query(r2) != qstruct.query(result) or c2 != c:
-            return {"text": text, "canonical": c, "recanonical": c2, "sig": classify(result, None, r2)}
+            sig = classify(result, None, r2)
+            if sig.startswith("structure_differs|leading headerless") and isinstance(text, str):
+                # the listed ambiguity is about texts that are NOT resource queries as typed (e.g. 'abc-%41/-/x') but
+                # whose canonical text is.  A text the resource grammar accepts as typed must have been read that way.
+                from liquer.parser import ResourceQuerySegment
+
+                try:
+                    rt = P.resource_transform_query.parseString(text, True)[0]
+                    if isinstance(rt.segments[0], ResourceQuerySegment) and not isinstance(result.segments[0], ResourceQuerySegment):
+                        sig = "structure_differs|text accepted by the resource grammar as typed was read as a transformation"
+                except Exception:
+                    pass
+            return {"text": text, "canonical": c, "recanonical": c2, "sig": sig}
         return None
 
     def canonical_fixed_point(query, result):
